@@ -547,6 +547,11 @@ func execC11(ops []Op) []string {
 // returned; "lua-co" = inside coroutine.wrap, root cancelled.  The request line is the same in every variant: what
 // the property promises does not depend on which state of the family is blocked or which of its contexts is cancelled.
 func execC11Block(kind, ctxS, readyS, cancelS, where string) string {
+	bufCap := 0
+	if i := strings.Index(where, "+cap"); i >= 0 {
+		bufCap, _ = strconv.Atoi(where[i+4:])
+		where = where[:i]
+	}
 	L := lua.NewState()
 	var cancel context.CancelFunc = func() {}
 	if ctxS == "1" {
@@ -565,6 +570,15 @@ func execC11Block(kind, ctxS, readyS, cancelS, where string) string {
 		}
 	}
 	ch := make(chan lua.LValue) // unbuffered: the operation blocks until the peer arrives
+	if bufCap > 0 {
+		// a buffered channel blocks the same way once it is full (send) / while it is empty (receive)
+		ch = make(chan lua.LValue, bufCap)
+		if kind == "send" || kind == "selsend" {
+			for k := 0; k < bufCap; k++ {
+				ch <- lua.LNumber(k)
+			}
+		}
+	}
 	L.SetGlobal("ch", lua.LChannel(ch))
 	src := map[string]string{
 		"recv":    `local ok,v = ch:receive() return 1`,
@@ -940,7 +954,7 @@ func runC11M(run *Run) {
 					}
 					bops = append(bops, Op{Args: []string{"block", k, c, rd, x}})
 					if c == "1" {
-						for _, wh := range []string{"thread-root", "thread-own", "lua-co"} {
+						for _, wh := range []string{"thread-root", "thread-own", "lua-co", "main+cap1", "main+cap3", "thread-own+cap2", "lua-co+cap1"} {
 							bops = append(bops, Op{Args: []string{"block", k, c, rd, x, wh}})
 						}
 					}
